@@ -1,42 +1,43 @@
 (** C01 - Balance and spendable outputs equal the ledger truth after every
     event.  Property theorems only.
 
-    FULL STATEMENT (for every universe, every chain-consistent history, every
-    prefix, every minconf >= 0, every sync height >= the highest confirmed
-    block, every clock value): *)
+    [chain_consistent] is the decidable predicate of Tx/Hist.v ([event_ok] per
+    event against the facts of the prefix before it); [spec_balance] and
+    [spec_utxos] (Tx/Ledger.v) are the property's text as functions of the
+    facts. *)
 From stdpp Require Import gmap list numbers sorting.
 From Coq Require Import ZArith NArith.
-From Verif Require Import Tx.Store Tx.Ledger Tx.Hist Tx.Inv Tx.Refine.
+From Verif Require Import Tx.Store Tx.Ledger Tx.Hist Tx.Inv Tx.Refine Tx.RefineAll Tx.Corollaries.
 Local Open Scope Z_scope.
 
-Definition C01_statement : Prop :=
+(** For every universe, every chain-consistent history, every prefix of it,
+    every minconf >= 0, every sync height at or above the highest confirmed
+    block: the reported balance equals the ledger sum, and the spendable list
+    is (a permutation of) the ledger's spendable set, each entry with amount,
+    confirming block and coinbase flag. *)
+Theorem C01_balance_and_spendable_equal_ledger :
   ∀ (U : universe) (h p : list event),
     wf_universe U = true → chain_consistent U h = true → p `prefix_of` h →
     let s := st (run U p) in let F := fs (spec_run U p) in let now := clock (run U p) in
     (∀ minconf sync, 0 <= minconf → (∀ t hh b, f_conf F !! t = Some (hh, b) → hh <= sync) →
        balance U s minconf sync now = spec_balance U F minconf sync now) ∧
     unspent_outputs U s now ≡ₚ spec_utxos U F now.
+Proof. exact c01_holds. Qed.
+Print Assumptions C01_balance_and_spendable_equal_ledger.
 
-(** The statement follows from the per-event preservation of the refinement
-    invariant and the two observation lemmas.  Which of these premises are
-    discharged is recorded in the evidence (Tx/PROOFS.md); the theorem below
-    is the composition, valid for every history. *)
-Theorem C01_from_refinement :
-  refinement_statement → balance_statement → utxos_statement → C01_statement.
-Proof.
-  intros Href Hbal Hutx U h p Hwf Hcons Hpre.
-  pose proof (chain_consistent_prefix U h p Hpre Hcons) as Hp.
-  destruct (Href U p Hwf Hp) as [HI Hclk].
-  split.
-  - intros minconf sync Hmc Hsync. apply Hbal; assumption.
-  - apply Hutx; assumption.
-Qed.
-Print Assumptions C01_from_refinement.
+(** The store refines the ledger on every chain-consistent history (the
+    invariant of Tx/Inv.v relates every bucket to the facts). *)
+Theorem C01_store_refines_ledger : refinement_statement.
+Proof. exact refinement. Qed.
+Print Assumptions C01_store_refines_ledger.
 
-Theorem C01_refinement_from_steps :
-  (∀ U, wf_universe U = true → ∀ e, step_preserves U e) → refinement_statement.
-Proof. exact refinement_from_steps. Qed.
-Print Assumptions C01_refinement_from_steps.
+(** The recursion over the unconfirmed spend graph never runs out of fuel on
+    a consistent history (the model never takes its error branch). *)
+Theorem C01_model_total_on_consistent_histories : ∀ U h p e,
+  wf_universe U = true → chain_consistent U h = true → p ++ [e] `prefix_of` h →
+  (step U (run U p) e).2 ≠ OFuel.
+Proof. exact consistent_never_out_of_fuel. Qed.
+Print Assumptions C01_model_total_on_consistent_histories.
 
 (** Non-vacuity: a consistent history with a chain, a conflict, a coinbase, a
     same-block parent/child, a rollback below a spender and a lease. *)
